@@ -19,6 +19,7 @@ class G_:
         self.depth = depth
         self.empties = empties      # write empty statements and allow bodies made of them only
         self.structured = True      # structured and array variables
+        self.cases = True           # CASE statements
 
     def name(self, p="v"):
         return "%s%d" % (p, self.rng.randrange(40))
@@ -73,6 +74,27 @@ class G_:
         s = self.rng.choice(["", "a", "str", "x y", "(*c*)", "q$$", "END_IF"])
         q = self.rng.choice(["'", '"'])
         return "s:" + "".join("%x." % ord(c) for c in s), [lit(q + s + q)]
+
+    def sint(self):
+        d = self.rng.choice(["0", "1", "7", "42", "1_000", "65535", "007"])
+        v = str(int(d.replace("_", "")))
+        r = self.rng.random()
+        if r < 0.2:
+            return "i:-" + v, [sym("-"), G, lit(d)]
+        if r < 0.3:
+            return "i:" + v, [sym("+"), G, lit(d)]
+        return "i:" + v, [lit(d)]
+
+    def csel(self):
+        r = self.rng.random()
+        if r < 0.5:
+            return self.sint()
+        if r < 0.8:
+            a, al = self.sint()
+            b, bl = self.sint()
+            return "(range %s %s)" % (a, b), al + [sym("..")] + bl
+        n = self.name("en")
+        return "e:" + n, [ident(n)]
 
     def call(self, d):
         f = self.name("f")
@@ -177,6 +199,28 @@ class G_:
                 lx += [kw("ELSE")] + el
             lx.append(kw("END_IF"))
             return "(if %s (%s) (%s) (%s))" % (c, " ".join(b), " ".join(eis), " ".join(els)), lx, True
+        if r < 0.76 and self.cases:
+            c, cl = self.expr(1, 0)
+            lx = [kw("CASE")] + cl + [kw("OF")]
+            gs = []
+            for _ in range(self.rng.choice([0, 1, 1, 2, 3])):
+                ss = []
+                for i in range(self.rng.choice([1, 1, 2, 3])):
+                    if i:
+                        lx.append(sym(","))
+                    x, l = self.csel()
+                    ss.append(x)
+                    lx += l
+                lx.append(sym(":"))
+                gb, gbl = self.stmts(d + 1, 1)
+                lx += gbl
+                gs.append("(grp (%s) (%s))" % (" ".join(ss), " ".join(gb)))
+            els = []
+            if self.rng.random() < 0.5:
+                els, el = self.stmts(d + 1, 1)
+                lx += [kw("ELSE")] + el
+            lx.append(kw("END_CASE"))
+            return "(case %s (%s) (%s))" % (c, " ".join(gs), " ".join(els)), lx, False
         if r < 0.8:
             v = self.name("i")
             a, al = self.expr(1, 0)
@@ -284,6 +328,23 @@ def sx_param(p):
     return None
 
 
+def sx_csel(t):
+    if isinstance(t, tuple) and isinstance(t[1], list) and len(t[1]) == 1:
+        name, x = t[0], t[1][0]
+        if name == "SignedInteger" and isinstance(x, str):
+            return x
+        if name == "Subrange" and isinstance(x, tuple) and isinstance(x[1], dict):
+            return "(range %s %s)" % (x[1]["start"], x[1]["end"])
+        if name == "EnumeratedValue" and isinstance(x, tuple) and isinstance(x[1], dict) and x[1].get("type_name") is None:
+            return "e:" + _name(x[1]["value"])
+    if isinstance(t, tuple) and isinstance(t[1], dict):
+        if t[0] == "Subrange":
+            return "(range %s %s)" % (t[1]["start"], t[1]["end"])
+        if t[0] == "EnumeratedValue" and t[1].get("type_name") is None:
+            return "e:" + _name(t[1]["value"])
+    return None
+
+
 def sx_list(l):
     ss = [sx_stmt(s) for s in l]
     return None if any(s is None for s in ss) else "(" + " ".join(ss) + ")"
@@ -310,6 +371,16 @@ def sx_stmt(t):
                 return None
             eis.append("(elsif %s %s)" % (ec, eb))
         return None if None in (c, body, els) else "(if %s %s (%s) %s)" % (c, body, " ".join(eis), els)
+    if name == "Case":
+        c, els = sx_expr(b["selector"]), sx_list(b["else_body"])
+        gs = []
+        for g in b["statement_groups"]:
+            ss = [sx_csel(x) for x in g[1]["selectors"]]
+            gb = sx_list(g[1]["statements"])
+            if gb is None or any(x is None for x in ss):
+                return None
+            gs.append("(grp (%s) %s)" % (" ".join(ss), gb))
+        return None if None in (c, els) else "(case %s (%s) %s)" % (c, " ".join(gs), els)
     if name == "For":
         a, c, body = sx_expr(b["from"]), sx_expr(b["to"]), sx_list(b["body"])
         st = "-" if b["step"] is None else sx_expr(b["step"])
